@@ -19,7 +19,7 @@ pub use crate::utils::{
 
 /// Iteration-order control
 pub mod order {
-    use std::sync::atomic::{AtomicBool, AtomicUsize, Ordering};
+    use std::cell::RefCell;
     use std::sync::Mutex;
 
     #[derive(Clone, Debug, PartialEq)]
@@ -35,62 +35,80 @@ pub mod order {
         Script { site: usize, perm: Vec<usize> },
     }
 
-    static MODE: Mutex<Mode> = Mutex::new(Mode::Sorted);
-    static CALLS: AtomicUsize = AtomicUsize::new(0);
-    static RECORD: AtomicBool = AtomicBool::new(false);
-    static LOG: Mutex<Vec<(usize, usize)>> = Mutex::new(Vec::new());
+    /// A permutation source: mode, iteration counter and optional (site, length) log
+    #[derive(Clone, Debug)]
+    pub struct Source {
+        pub mode: Mode,
+        pub calls: usize,
+        pub record: bool,
+        pub log: Vec<(usize, usize)>,
+    }
 
+    impl Source {
+        pub const fn new(mode: Mode) -> Source {
+            Source {
+                mode,
+                calls: 0,
+                record: false,
+                log: Vec::new(),
+            }
+        }
+
+        fn perm(&mut self, n: usize) -> Vec<usize> {
+            let site = self.calls;
+            self.calls += 1;
+            if self.record {
+                self.log.push((site, n));
+            }
+            match &self.mode {
+                Mode::Sorted => (0..n).collect(),
+                Mode::Reverse => (0..n).rev().collect(),
+                Mode::Rotate(k) => {
+                    if n == 0 {
+                        vec![]
+                    } else {
+                        (0..n).map(|i| (i + k) % n).collect()
+                    }
+                }
+                Mode::Script { site: s, perm } => {
+                    if *s == site && perm.len() == n {
+                        perm.clone()
+                    } else {
+                        (0..n).collect()
+                    }
+                }
+            }
+        }
+    }
+
+    static GLOBAL: Mutex<Source> = Mutex::new(Source::new(Mode::Sorted));
+
+    thread_local! {
+        /// Per-thread override of the global source (used by single-threaded explorations)
+        static LOCAL: RefCell<Option<Source>> = const { RefCell::new(None) };
+    }
+
+    /// Sets the process-wide mode (resets the global counter and log)
     pub fn set_mode(m: Mode) {
-        *MODE.lock().unwrap() = m;
+        *GLOBAL.lock().unwrap() = Source::new(m);
     }
 
-    pub fn get_mode() -> Mode {
-        MODE.lock().unwrap().clone()
+    /// Installs (or removes) a per-thread source that takes precedence over the global one
+    pub fn set_thread_source(s: Option<Source>) {
+        LOCAL.with(|l| *l.borrow_mut() = s);
     }
 
-    /// Resets the iteration counter (and the recorded log)
-    pub fn reset() {
-        CALLS.store(0, Ordering::SeqCst);
-        LOG.lock().unwrap().clear();
-    }
-
-    /// Enables / disables recording of (site, length) for every iteration
-    pub fn record(on: bool) {
-        RECORD.store(on, Ordering::SeqCst);
-    }
-
-    pub fn calls() -> usize {
-        CALLS.load(Ordering::SeqCst)
-    }
-
-    pub fn take_log() -> Vec<(usize, usize)> {
-        std::mem::take(&mut *LOG.lock().unwrap())
+    /// Removes and returns the per-thread source (with its counter and log)
+    pub fn take_thread_source() -> Option<Source> {
+        LOCAL.with(|l| l.borrow_mut().take())
     }
 
     /// Returns the permutation to be applied to an iteration over n sorted elements
     pub fn perm(n: usize) -> Vec<usize> {
-        let site = CALLS.fetch_add(1, Ordering::SeqCst);
-        if RECORD.load(Ordering::SeqCst) {
-            LOG.lock().unwrap().push((site, n));
-        }
-        let mode = MODE.lock().unwrap();
-        match &*mode {
-            Mode::Sorted => (0..n).collect(),
-            Mode::Reverse => (0..n).rev().collect(),
-            Mode::Rotate(k) => {
-                if n == 0 {
-                    vec![]
-                } else {
-                    (0..n).map(|i| (i + k) % n).collect()
-                }
-            }
-            Mode::Script { site: s, perm } => {
-                if *s == site && perm.len() == n {
-                    perm.clone()
-                } else {
-                    (0..n).collect()
-                }
-            }
+        let local = LOCAL.with(|l| l.borrow_mut().as_mut().map(|s| s.perm(n)));
+        match local {
+            Some(p) => p,
+            None => GLOBAL.lock().unwrap().perm(n),
         }
     }
 
